@@ -89,6 +89,33 @@ def classify(roles, f, unit, restrict, v1, v2, to_string_key, str_to_number_key,
                     cmps.append((b, bi, si, s["rv"]))
                 if s["k"] == "Assign" and s["rv"]["k"] == "Cast" and s["rv"].get("cast") in ("FloatToInt", "IntToFloat"):
                     casts.append(s["rv"]["cast"])
+    # the code of the pair is also the code of the private helpers it hands its payloads to (`numbers_eq(x, y)`,
+    # `arrays_eq(xs, ys)`): everything but the predicate itself, the interpreter, and another two-value predicate
+    # (read by delegation below, under the same kinds)
+    own = {b.key for b in unit}
+    halt = set(roles.sinks) | set(roles.evaluators)
+    seen_h = set()
+    work = [c for (_, _, _, c) in calls]
+    while work:
+        c = work.pop()
+        k = c.get("key")
+        if not c.get("local") or k is None or k in own or k in seen_h or k == f.key or k in halt or len(seen_h) > 12:
+            continue
+        it = facts.items.get(k, {})
+        if it.get("output") == "bool" and it.get("inputs") == ["&serde_json::Value", "&serde_json::Value"]:
+            continue
+        seen_h.add(k)
+        for hb in roles.unit(k):
+            for bi in sorted(hb.reachable()):
+                t = hb.blocks[bi]["term"]
+                if t["k"] == "Call" and callee_of(t):
+                    calls.append((hb, bi, t, callee_of(t)))
+                    work.append(callee_of(t))
+                for si, s in enumerate(hb.blocks[bi]["stmts"]):
+                    if s["k"] == "Assign" and s["rv"]["k"] == "BinaryOp" and s["rv"]["op"] in ("Eq", "Ne", "Lt", "Le", "Gt", "Ge"):
+                        cmps.append((hb, bi, si, s["rv"]))
+                    if s["k"] == "Assign" and s["rv"]["k"] == "Cast" and s["rv"].get("cast") in ("FloatToInt", "IntToFloat"):
+                        casts.append(s["rv"]["cast"])
     blocks = restrict[f.key]
     with f.restricted(blocks):
         r = strip_refs(f.trace(0))
@@ -100,7 +127,9 @@ def classify(roles, f, unit, restrict, v1, v2, to_string_key, str_to_number_key,
             conv = []
             for p, cur in ((1, v1), (2, v2)):
                 e = strip_refs(b.xtrace(t["args"][p - 1]))
-                if e == ("arg", p):
+                if b.key not in own and e[0] == "arg":
+                    nxt.append("?")         # a helper's own parameter: a payload, not the operand
+                elif e == ("arg", p):
                     nxt.append(cur)
                 elif e == ("arg", 3 - p) and b.key == f.key:
                     nxt.append(v2 if p == 1 else v1)   # the other operand, handed on unchanged (a swap)
